@@ -34,3 +34,4 @@ def implies(a, b):
 
 def iff(a, b):
   return bool(a) == bool(b)
+from . import loops, calls, methods, heap  # noqa: F401,E402  (populate the builtin summaries)
